@@ -1,6 +1,6 @@
 """C20 - readers terminate on every input and report bad data as a parse error.
 
-Implementation side: Tree/TreeList/DataSet/CharacterMatrix.get(data=text, schema=newick|nexus|phylip|fasta), each call
+Implementation side: Tree/TreeList/DataSet/CharacterMatrix.get(data= | path= | file=<text stream of several kinds>, schema=newick|nexus|phylip|fasta), each call
 under an alarm.  Oracle (independent of the readers): outcome class in {well-formed result, DataParseError family,
 documented ValueError for no data}; returned trees pass the literal arborescence check; returned matrices agree with
 the dimensions the document declares (read off the text by the oracle's own regexes).  Model side (`drv_c20`): the
@@ -39,9 +39,10 @@ EXPLANATION = ("Theorems (Props/C20.lean, about the definitions drv_c20 runs; ev
                "fasta_never_internal, fasta_rows_nonempty; reader_loop_rule, reader_loop_exit_rule, nexus_never_internal (every NEXUS loop makes "
                "progress), statement_needs_semicolon + taxa_block_needs_end (a DIMENSIONS/TAXLABELS/LINK/FORMAT statement or TAXA block that is cut "
                "short cannot return: with termination it is a parse error), nexus_matrix_dims (one MATRIX call; not lifted to the final result), "
+               "nexus_result_dims (every matrix of a successful readNexus result is rectangular with positive width), rowFor_in_range, "
                "charset_positions_in_range; eof_is_parse_error (dichotomy ok / parse error on every text); newick_steps_linear and "
                "reader_loop_rounds_linear are about ghost counters defined next to run/iter in the Props file (the driver does not count).  "
-               "Not proved: dimensions of the matrices readNexus finally returns; in-range indices of the NEXUS matrix rows (getD defaults); "
+               "Not proved: that rowLen/labelsOf/nsIdx never take their getD defaults inside the NEXUS matrix code (only the row index is guarded); "
                "the 'no AttributeError/IndexError' clause for the implementation itself is evaluated by the oracle.")
 
 ROUTES = {
@@ -565,22 +566,94 @@ def paren_depth(text):
     return m
 
 
-def make_case(schema, text, kwargs=None, route=None, origin="?"):
+def make_case(schema, text, kwargs=None, route=None, origin="?", source="data"):
     return {"schema": schema, "text": text, "kwargs": dict(kwargs or {}), "route": route or ROUTES[schema][0],
-            "origin": origin, "paren_depth": paren_depth(text), "length": len(text)}
+            "origin": origin, "paren_depth": paren_depth(text), "length": len(text), "source": source}
+
+
+# how the text reaches the reader: the `get` entry points take data=, path= or file= (any readable text stream)
+SOURCES = ["data", "path", "file:stringio", "file:named", "file:tempfile", "file:fd", "file:pipe", "file:spooled", "file:noname"]
+
+
+class _NoNameStream(io.StringIO):
+    """a text stream without a `name` attribute semantics: here its `name` is not a path"""
+    name = None
+
+
+def open_source(case, keep):
+    """returns the keyword (data= / path= / file=) for the case's source kind; objects to close are appended to `keep`"""
+    import os
+    import tempfile
+    text, kind = case["text"], case.get("source", "data")
+    if kind == "data":
+        return {"data": text}
+    if kind == "file:stringio":
+        return {"file": io.StringIO(text)}
+    if kind == "file:noname":
+        return {"file": _NoNameStream(text)}
+    if kind in ("path", "file:named", "file:fd"):
+        fd, p = tempfile.mkstemp(prefix="c20-", suffix=".txt")
+        with os.fdopen(fd, "w", newline="") as f:
+            f.write(text)
+        keep.append(("unlink", p))
+        if kind == "path":
+            return {"path": p}
+        if kind == "file:named":
+            f = open(p, "r", newline="")
+        else:
+            f = open(os.open(p, os.O_RDONLY), "r", newline="")      # name is the integer descriptor
+        keep.append(("close", f))
+        return {"file": f}
+    if kind == "file:tempfile":
+        f = tempfile.TemporaryFile("w+", newline="")                 # name is an integer
+        f.write(text)
+        f.seek(0)
+        keep.append(("close", f))
+        return {"file": f}
+    if kind == "file:spooled":
+        f = tempfile.SpooledTemporaryFile(max_size=1 << 22, mode="w+", newline="")   # not rolled over: name is None
+        f.write(text)
+        f.seek(0)
+        keep.append(("close", f))
+        return {"file": f}
+    if kind == "file:pipe":
+        data = text.encode("utf-8")
+        if len(data) > 60000:                                        # larger than a pipe buffer: use a descriptor-named file
+            return open_source(dict(case, source="file:fd"), keep)
+        r, w = os.pipe()
+        os.write(w, data)
+        os.close(w)
+        f = os.fdopen(r, "r", newline="")
+        keep.append(("close", f))
+        return {"file": f}
+    raise ValueError(kind)
 
 
 def call_reader(dendropy, case):
-    schema, text, kwargs, route = case["schema"], case["text"], case["kwargs"], case["route"]
-    if route == "treelist":
-        return dendropy.TreeList.get(data=text, schema=schema, **kwargs)
-    if route == "tree":
-        return dendropy.Tree.get(data=text, schema=schema, **kwargs)
-    if route == "dataset":
-        return dendropy.DataSet.get(data=text, schema=schema, **kwargs)
-    if route == "dnamatrix":
-        return dendropy.DnaCharacterMatrix.get(data=text, schema=schema, **kwargs)
-    raise ValueError(route)
+    import os
+    schema, kwargs, route = case["schema"], case["kwargs"], case["route"]
+    keep = []
+    try:
+        src = open_source(case, keep)
+        src.update(kwargs)
+        if route == "treelist":
+            return dendropy.TreeList.get(schema=schema, **src)
+        if route == "tree":
+            return dendropy.Tree.get(schema=schema, **src)
+        if route == "dataset":
+            return dendropy.DataSet.get(schema=schema, **src)
+        if route == "dnamatrix":
+            return dendropy.DnaCharacterMatrix.get(schema=schema, **src)
+        raise ValueError(route)
+    finally:
+        for what, x in keep:
+            try:
+                if what == "close":
+                    x.close()
+                else:
+                    os.unlink(x)
+            except Exception:
+                pass
 
 
 MAX_HANGS = 6
@@ -853,9 +926,9 @@ def judge(ctx, dendropy, case, st, complete_valid=False):
             if klass != "hang" or time.process_time() - c0 > 1.5:
                 break   # confirm with a generous limit (a GC pause is not a hang)
     nontrivial = (not complete_valid) or klass != "ok"
-    ctx.case([case["schema"], case["route"], case["text"], sorted(case["kwargs"].items())], nontrivial,
+    ctx.case([case["schema"], case["route"], case["text"], sorted(case["kwargs"].items()), case.get("source", "data")], nontrivial,
              sample={"schema": case["schema"], "origin": case["origin"], "text": case["text"][:120], "outcome": klass},
-             kind="%s:%s:%s" % (case["schema"], case["origin"], klass))
+             kind="%s:%s:%s%s" % (case["schema"], case["origin"], klass, "" if case.get("source", "data") == "data" else ":" + case["source"].split(":")[0]))
     summary = None
     rep = dict(case)
     if klass == "hang":
@@ -879,7 +952,7 @@ def judge(ctx, dendropy, case, st, complete_valid=False):
         if len(detail.split(": ", 1)[-1].strip()) == 0:
             rep.update(oracle="no_message", exception=detail)
             ctx.fail("nomessage:" + case["schema"], "parse error without any description: %s" % detail, rep)
-    queue_model(ctx, dendropy, case, klass, summary, st)
+    queue_model(ctx, dendropy, case, klass, summary, st, detail)
     return klass
 
 
@@ -951,7 +1024,12 @@ QUOTED_PUNCT = re.compile(r"'[(),:;]'")
 BLANK = re.compile(r"\(-\|-\|N\)")
 
 
-def queue_model(ctx, dendropy, case, klass, summary, st):
+NEWICK_KINDS = {"UnexpectedEndOfStreamError": "eos", "UnterminatedQuoteError": "unterminated",
+                "NewickReaderIncompleteTreeStatementError": "incomplete", "NewickReaderMalformedStatementError": "malformed",
+                "NewickReaderDuplicateTaxonError": "duplicate"}
+
+
+def queue_model(ctx, dendropy, case, klass, summary, st, detail=""):
     # (on a hang / internal error nothing is queued: the model is of the repaired control flow)
     schema = case["schema"]
     if not ascii_ok(case["text"]):
@@ -960,7 +1038,8 @@ def queue_model(ctx, dendropy, case, klass, summary, st):
         if klass == "ok":
             got = "ok %d %s" % (len(summary["trees"]), " ".join(canon_tree(t) for t in summary["trees"]))
         elif klass == "parse":
-            got = "parse"
+            # the KIND of parse error (exception subclass) is compared too where the model distinguishes it
+            got = "parse:" + NEWICK_KINDS.get(detail.split(":")[0], "?")
         elif klass == "nodata":
             got = "ok 0 "
         else:
@@ -1045,8 +1124,10 @@ def judge_tokens(ctx, dendropy, text, pu, st):
         st.pending.append(("tok %d %s" % (1 if pu else 0, hex6(text)), case, got, "tok"))
 
 
-def normalise_model(op, m):
+def normalise_model(op, m, got_kind_unknown=False):
     m = m.strip()
+    if op == "newick" and m.startswith("parse:") and got_kind_unknown:
+        return "parse:?"
     if op == "newick" and m.startswith("ok"):
         return canon_model_trees(m).strip()
     return m
@@ -1059,7 +1140,7 @@ def flush(ctx, st):
     for (line, case, got, op), m in zip(st.pending, outs):
         if m is None:
             continue
-        m = normalise_model(op, m)
+        m = normalise_model(op, m, got == "parse:?")
         if m == "unmodelled":
             ctx.count("model_unmodelled:" + op)
             continue
@@ -1093,6 +1174,12 @@ def corruptions_of(ctx, dendropy, doc, st, n_edits, n_double, all_prefixes=True,
             t = edit_once(rng, t, schema)
             origin = "edit2"
         judge(ctx, dendropy, make_case(schema, t, kwargs, rng.choice(ROUTES[schema]), origin), st)
+    # the same kinds of input through every other way a source can be handed over (path=, file=<any text stream>)
+    for source in SOURCES[1:]:
+        if ctx.out_of_time() or st.hangs > MAX_HANGS:
+            return
+        for t, origin in ((text[:rng.randint(0, len(text))], "prefix"), (edit_once(rng, text, schema), "edit1"), (text, "valid")):
+            judge(ctx, dendropy, make_case(schema, t, kwargs, rng.choice(ROUTES[schema]), origin, source), st)
 
 
 def special_cases(ctx, dendropy, st):
@@ -1133,6 +1220,12 @@ def special_cases(ctx, dendropy, st):
     for schema, text in texts:
         for route in sorted(set(ROUTES[schema])):
             judge(ctx, dendropy, make_case(schema, text, {}, route, "special"), st)
+    # bad and good input of every format through every way a source can be handed over
+    for schema, bad, good in (("newick", "((a,b);", "(a,b);"), ("nexus", "#NEXUS\nBEGIN TAXA;\n DIMENSIONS NTAX=2", "#NEXUS\nBEGIN TAXA;\n DIMENSIONS NTAX=1;\n TAXLABELS A;\nEND;\n"),
+                              ("phylip", "2 4\nA ACGTA\nB ACGT\n\n", "1 2\nA AC\n\n"), ("fasta", ">A\nAC!T\n", ">A\nACGT\n")):
+        for source in SOURCES[1:]:
+            for text in (bad, good, ""):
+                judge(ctx, dendropy, make_case(schema, text, {}, ROUTES[schema][0], "special", source), st)
     for text in ("3 4\nA ACGT\nB ACGT\nC ACGT\n", "2 4\nA         AC\nB         AC\n\nGT\nGT\n", "2 4\nA ACGTA\nB ACGT\n\n", "2 4\nA AC\nB AC\n\nGTA\nGT\n"):
         for kwargs in ({"interleaved": True}, {"strict": True}, {"strict": True, "interleaved": True}):
             judge(ctx, dendropy, make_case("phylip", text, kwargs, "dnamatrix", "special"), st)
@@ -1145,7 +1238,7 @@ def special_cases(ctx, dendropy, st):
 def run(ctx):
     dendropy = __import__("dendropy")
     rng = ctx.rng
-    ctx.set_budget(27, 780)
+    ctx.set_budget(24, 780)
     st = State()
     special_cases(ctx, dendropy, st)
     flush(ctx, st)
@@ -1238,5 +1331,6 @@ def replay(ctx, rec):
     if c.get("route") == "tokenizer":
         judge_tokens(ctx, dendropy, c["text"], bool(c.get("pu")), st)
     else:
-        judge(ctx, dendropy, make_case(c["schema"], c["text"], c.get("kwargs"), c.get("route"), c.get("origin", "replay")), st)
+        judge(ctx, dendropy, make_case(c["schema"], c["text"], c.get("kwargs"), c.get("route"), c.get("origin", "replay"),
+                                       c.get("source", "data")), st)
     flush(ctx, st)
